@@ -1187,6 +1187,11 @@ def r13_3_reconcile_shape(ctx, rule: str = 'R13.3') -> List[Ob]:
                     good = True
     elif len(rets) == 1 and is_call(rets[0].value):
         good = True       # the two-element list itself
+    elif len(rets) == 1:
+        rv = res(rets[0].value)
+        if isinstance(rv, ast.Call) and isinstance(rv.func, ast.Name) and rv.func.id in ('tuple', 'list') and len(rv.args) == 1 \
+                and not rv.keywords and is_call(rv.args[0]):
+            good = True   # the same two results as a tuple / a fresh list
     obs.append(ok(rule, t, g.loc(), construct=f"{_fn(g)}::pair") if good else violation(rule, t, g.loc(), key=f"{_fn(g)}::pair"))
     return obs
 
@@ -1267,6 +1272,60 @@ def r06_aggregation(ctx, rule_dc: str = 'R06.2', rule_norm: str = 'R06.3') -> Li
         if len(den_defs) == 1:
             den = ast.unparse(den_defs[0].value)
         good = den == f"len({ast.unparse(lp.iter)})" and len(acc) == 1
+        if not good:
+            # the same sum written as two nested loops over the selection S - `for p in range(len(S) [- 1])`,
+            # `for j in S[p+1:]` with the one accumulation inside - divided by the number of pairs n(n-1)/2, n = len(S)
+            once = {}
+            cnt = {}
+            for n_ in ast.walk(gd.node):
+                if isinstance(n_, ast.Name) and isinstance(n_.ctx, ast.Store):
+                    cnt[n_.id] = cnt.get(n_.id, 0) + 1
+            for n_ in ast.walk(gd.node):
+                if isinstance(n_, ast.Assign) and len(n_.targets) == 1 and isinstance(n_.targets[0], ast.Name) and cnt.get(n_.targets[0].id) == 1:
+                    once[n_.targets[0].id] = n_.value
+
+            def res_(e):
+                k_ = 0
+                while isinstance(e, ast.Name) and e.id in once and k_ < 4:
+                    e, k_ = once[e.id], k_ + 1
+                return e
+
+            def len_of(e):
+                e = res_(e)
+                if isinstance(e, ast.Call) and isinstance(e.func, ast.Name) and e.func.id == 'len' and len(e.args) == 1 \
+                        and isinstance(e.args[0], ast.Name):
+                    return e.args[0].id
+                return None
+            inner = [s_ for s_ in lp.body if isinstance(s_, ast.For)]
+            rest = [s_ for s_ in lp.body if not isinstance(s_, ast.For)]
+            it = lp.iter
+            S = None
+            if isinstance(it, ast.Call) and isinstance(it.func, ast.Name) and it.func.id == 'range' and len(it.args) == 1 \
+                    and isinstance(lp.target, ast.Name):
+                a0 = res_(it.args[0])
+                S = len_of(a0)
+                if S is None and isinstance(a0, ast.BinOp) and isinstance(a0.op, ast.Sub) and isinstance(a0.right, ast.Constant) \
+                        and a0.right.value == 1:
+                    S = len_of(a0.left)
+            if S is not None and len(inner) == 1 and all(isinstance(s_, ast.Assign) and isinstance(s_.targets[0], ast.Name) for s_ in rest) \
+                    and isinstance(inner[0].target, ast.Name) and not inner[0].orelse:
+                it2 = inner[0].iter
+                p_ = lp.target.id
+                inner_ok = isinstance(it2, ast.Subscript) and isinstance(it2.value, ast.Name) and it2.value.id == S \
+                    and isinstance(it2.slice, ast.Slice) and it2.slice.upper is None and it2.slice.step is None \
+                    and it2.slice.lower is not None and ast.unparse(it2.slice.lower).replace(' ', '') in (f"{p_}+1", f"1+{p_}")
+                acc2 = [s_ for s_ in inner[0].body if isinstance(s_, ast.AugAssign) and isinstance(s_.op, ast.Add) and ast.unparse(s_.target) == accn]
+                d_ = res_(rets[-1].value.right)
+                count_ok = False
+                if isinstance(d_, ast.BinOp) and isinstance(d_.op, (ast.FloorDiv, ast.Div)) and isinstance(d_.right, ast.Constant) \
+                        and d_.right.value == 2 and isinstance(d_.left, ast.BinOp) and isinstance(d_.left.op, ast.Mult):
+                    for x_, y_ in ((d_.left.left, d_.left.right), (d_.left.right, d_.left.left)):
+                        y2 = res_(y_) if isinstance(y_, ast.Name) else y_
+                        if len_of(x_) == S and isinstance(y2, ast.BinOp) and isinstance(y2.op, ast.Sub) and len_of(y2.left) == S \
+                                and isinstance(y2.right, ast.Constant) and y2.right.value == 1:
+                            count_ok = True
+                good = inner_ok and len(acc2) == 1 and len(inner[0].body) == len(acc2) + sum(
+                    1 for s_ in inner[0].body if isinstance(s_, ast.Assign) and isinstance(s_.targets[0], ast.Name)) and count_ok
     obs.append(ok(rule_norm, t, gd.loc(), construct=f"{_fn(gd)}::mean") if good else violation(rule_norm, t, gd.loc(), key=f"{_fn(gd)}::mean-of-pairs"))
     for f in wm.funcs:
         # pooled (value, multiplicity) sums
@@ -1441,13 +1500,14 @@ def r_spiketrain_ctor(ctx, rule: str) -> List[Ob]:
     if len(ps) < 3:
         return [inconclusive(rule, 'SpikeTrain.__init__(self, spike_times, edges, ...)', f.loc(), construct=fn)]
     me, spikes_p = ps[0], ps[1]
-    local: Dict[str, ast.AST] = {}
+    local: Dict[str, List[ast.Assign]] = {}
     for n in ast.walk(f.node):
         if isinstance(n, ast.Assign) and len(n.targets) == 1 and isinstance(n.targets[0], ast.Name):
-            local[n.targets[0].id] = n.value
+            local.setdefault(n.targets[0].id, []).append(n)
 
-    def chain(e, depth=0):
-        """-> (list of wrapper names, root expression)"""
+    def chain(e, depth=0, seen=frozenset()):
+        """-> (list of wrapper names, root expression); a local with several definitions (`s = np.array(x)` ...
+        `if not is_sorted: s = np.sort(s)`) contributes the wrappers of all of them, its root is their common root"""
         names = []
         while depth < 12:
             depth += 1
@@ -1468,11 +1528,22 @@ def r_spiketrain_ctor(ctx, rule: str) -> List[Ob]:
                     continue
                 return names, e
             if isinstance(e, ast.Name) and e.id in local and e.id != spikes_p:
-                e = local[e.id]
-                continue
+                defs = [d_ for d_ in local[e.id] if id(d_) not in seen]
+                if not defs:
+                    return names, e
+                roots = []
+                for d_ in defs:
+                    n_, r_ = chain(d_.value, depth, seen | {id(d_)})
+                    names += n_
+                    # a definition in terms of the local itself (s = np.sort(s)) has the root of the other definitions
+                    if not (isinstance(r_, ast.Name) and r_.id == e.id):
+                        roots.append(r_)
+                if roots and all(ast.dump(r_) == ast.dump(roots[0]) for r_ in roots):
+                    return names, roots[0]
+                return names, e
             if isinstance(e, ast.IfExp):
-                a1, r1 = chain(e.body, depth)
-                a2, r2 = chain(e.orelse, depth)
+                a1, r1 = chain(e.body, depth, seen)
+                a2, r2 = chain(e.orelse, depth, seen)
                 return names + a1 + a2, (r1 if ast.dump(r1) == ast.dump(r2) else e)
             return names, e
         return names, e
